@@ -267,6 +267,8 @@ impl<F: Write + Seek> Directory<F> {
         debug_assert!(
             obj_type == ObjType::Storage || obj_type == ObjType::Stream
         );
+        // Reject invalid names before anything is allocated or written.
+        internal::path::validate_name(name)?;
         // Create a new directory entry.
         let stream_id = self.allocate_dir_entry()?;
         // 2.6.1 streams must have creation and modified time of 0
